@@ -92,6 +92,11 @@ type summaryWalker struct {
 	exports         []*TypeRef
 	refs            []*sourcewalk.RefNode
 	subPackageFiles []string
+
+	// subPackageDepth counts the service and topic files being walked: the
+	// objects in there are generated into the sub-package, they are not
+	// types of this package.
+	subPackageDepth int
 }
 
 func (c *summaryWalker) includeSubFile(subPackage string) {
@@ -104,6 +109,9 @@ func (c *summaryWalker) includeSubFile(subPackage string) {
 }
 
 func (c *summaryWalker) addExport(ref *TypeRef) {
+	if c.subPackageDepth > 0 {
+		return
+	}
 	c.exports = append(c.exports, ref)
 }
 
@@ -139,8 +147,24 @@ func (cc *summaryWalker) collectFileRefs(sourceFile *sourcedef_j5pb.SourceFile) 
 			cc.addExport(enumTypeRef(node))
 			return nil
 		},
+		ServiceFile: func(*sourcewalk.ServiceFileNode) error {
+			cc.subPackageDepth++
+			return nil
+		},
+		ServiceFileExit: func(*sourcewalk.ServiceFileNode) error {
+			cc.subPackageDepth--
+			return nil
+		},
 		Service: func(node *sourcewalk.ServiceNode) error {
 			cc.includeSubFile("service")
+			return nil
+		},
+		TopicFile: func(*sourcewalk.TopicFileNode) error {
+			cc.subPackageDepth++
+			return nil
+		},
+		TopicFileExit: func(*sourcewalk.TopicFileNode) error {
+			cc.subPackageDepth--
 			return nil
 		},
 		Topic: func(node *sourcewalk.TopicNode) error {
